@@ -1,6 +1,7 @@
 package main
 
 import (
+	"regexp"
 	"bufio"
 	"bytes"
 	"crypto/ed25519"
@@ -67,6 +68,7 @@ func canon(v interface{}) string {
 }
 
 var intendedPerms map[*characteristic.Characteristic]string
+var numberLiteral = regexp.MustCompile(`^-?[0-9]+(\.[0-9]+)?([eE][+-]?[0-9]+)?$`)
 
 // the fixed accessory set of the stack scenarios (ids are assigned by the library)
 func buildAccessories() []*accessory.Accessory {
@@ -118,6 +120,15 @@ func buildAccessories() []*accessory.Accessory {
 	re.Value = 3
 	intendedPerms[re.Characteristic] = "re"
 	svc.AddCharacteristic(re.Characteristic)
+	// a signed 32-bit integer with a range around zero (a tilt angle)
+	ang := characteristic.NewInt("F0000009-0000-1000-8000-0026BB765291")
+	ang.Format = characteristic.FormatInt32
+	ang.Perms = characteristic.PermsAll()
+	ang.SetMinValue(-90)
+	ang.SetMaxValue(90)
+	ang.Value = 0
+	intendedPerms[ang.Characteristic] = "rwe"
+	svc.AddCharacteristic(ang.Characteristic)
 	sw.AddService(svc)
 	return []*accessory.Accessory{br.Accessory, lb.Accessory, th.Accessory, sw.Accessory}
 }
@@ -850,6 +861,9 @@ func (w *world) httpOp(p []string) string {
 		val := strings.SplitN(strings.Join(p[3:len(p)-1], ":"), "@", 2)[0]
 		if val != "-" {
 			m["value"] = tokenValue(val)
+			if numberLiteral.MatchString(val) {
+				m["value"] = json.RawMessage(val) // the number goes out in the notation of the case line (-30, 7.0, 9e1)
+			}
 		}
 		switch ev := p[len(p)-1]; ev {
 		case "-":
